@@ -9,7 +9,8 @@
    run_rf codes:   5 answer differs from the model (correspondence)
                    6 C08 monitor fails on the implementation's own answers
    run_ucost:      8 ChfUe.UnitCost differs from the model's unit cost (correspondence)
-                   9 C08 monitor: CHF-side unit cost <> cost applied by the server *)
+                   9 C08 monitor: CHF-side unit cost <> cost applied by the server
+                  10 C08 monitor: a stored unit cost of decimal digits is not priced as that number *)
 From Coq Require Import List ZArith Bool.
 From Verif Require Import Charging.Servers.
 Import ListNotations.
@@ -170,9 +171,18 @@ Record ucase := mkUcase { uc_id : Z; uc_cost : list Z; uc_chf : Z; uc_server : Z
   (* uc_chf: unit cost stored by the CHF after an update; uc_server: price the
      server charges for one consumed unit (-1: not observed) *)
 
+(* an oracle that owes nothing to the model: a stored unit cost that is a plain string of decimal
+   digits (below 2^32) is that number -- whatever its leading zeros *)
+Definition all_digits (s : list Z) : bool :=
+  match s with [] => false | _ => forallb (fun c => (48 <=? c) && (c <=? 57)) s end.
+Definition decimal (s : list Z) : Z := fold_left (fun a c => a * 10 + (c - 48)) s 0.
+
 Definition check_ucost (c : ucase) : list (Z * Z * Z) :=
   let '(dg, ex) := tariff (uc_cost c) in
   (if uc_chf c =? unit_cost dg ex then [] else [(uc_id c, 0, 8)]) ++
-  (if (uc_server c =? -1) || (uc_chf c =? -1) || (uc_chf c =? uc_server c) then [] else [(uc_id c, 0, 9)]).
+  (if (uc_server c =? -1) || (uc_chf c =? -1) || (uc_chf c =? uc_server c) then [] else [(uc_id c, 0, 9)]) ++
+  (if all_digits (uc_cost c) && (decimal (uc_cost c) <? 4294967296) &&
+      negb (uc_server c =? -1) && negb (uc_server c =? decimal (uc_cost c))
+   then [(uc_id c, 0, 10)] else []).
 
 Definition run_ucost (cs : list ucase) : list (Z * Z * Z) := flat_map check_ucost cs.
